@@ -178,6 +178,13 @@ func scenarioC03(c *hlib.RunCtx) *hlib.Violation {
 	}
 	w.satur = c.Flag("family") == "saturation"
 	w.strict = true // per-snapshot: decodable, values never decrease (no wrap)
+	// In a quarter of the saturation runs every thread adds the largest amount to
+	// one counter: the value stands just below 2^63 after the first of them, and
+	// the following ones meet there, inside each other's load and add.
+	hot := w.satur && t.Bool(1, 4)
+	if hot {
+		s.Probe("all-threads-at-the-limit")
+	}
 	scripts := make([][]op, nthreads)
 	for i := range scripts {
 		n := 1 + t.Draw(maxOps)
@@ -197,6 +204,9 @@ func scenarioC03(c *hlib.RunCtx) *hlib.Violation {
 						// persisted limit, the third would wrap
 						o.n = 1<<63 - 1 - int64(t.Draw(3))
 					}
+				}
+				if hot {
+					o.idx, o.n = 0, 1<<63-1-int64(t.Draw(3))
 				}
 			}
 			scripts[i] = append(scripts[i], o)
